@@ -57,6 +57,9 @@ impl FromStr for Decimal {
             return Result::Err(ParseDecimalError::FracDigitLimitExceeded);
         }
         if exponent > 38 {
+            if coeff == 0 {
+                return Ok(Self::ZERO);
+            }
             // 10 ^ 39 > int128::MAX
             return Result::Err(ParseDecimalError::InternalOverflow);
         }
